@@ -190,6 +190,16 @@ func newLockset(p *core.Prog, rep *core.Report) *lockset {
 	l.bMu = ownerName(p, p.R.BatchMu)
 	l.writeReach = p.Reaches("rw.write", func(site ssa.CallInstruction) bool { return isWritePrimitive(p, site.Common()) })
 	l.inferGuarded()
+	defer func() {
+		l.eng.PhiFilter = func(ph *ssa.Phi) bool {
+			pt, ok := ph.Type().(*types.Pointer)
+			if !ok {
+				return false
+			}
+			n, ok := pt.Elem().(*types.Named)
+			return ok && n == p.R.DataFile
+		}
+	}()
 	l.eng = core.NewEngine(p, core.Hooks{
 		Name:   "lockset",
 		Step:   l.step,
@@ -421,6 +431,26 @@ func (l *lockset) step(x *core.Exec, in ssa.Instruction, a core.AState) ([]core.
 				}
 				if s.e == '1' {
 					x.Report("LK8", "use-after-commit:"+entry, "index access on a committed batch", in)
+				}
+			}
+			// LK10: the active file is mutated by every append, so any method call on it (reads included) must hold
+			// the database lock; rotated files are immutable and are read lock-free by design. The receiver is
+			// resolved on the path taken (phi of "active" vs "looked up in the rotated-files map").
+			if core.RecvNamed(callee) == p.R.DataFile && len(c.Args) > 0 && l.raceEntries[x.Root().Fn] {
+				recv := x.Resolve(c.Args[0])
+				isActive := false
+				for _, o := range core.Origins(recv) {
+					if f, base := core.LoadedField(x.Resolve(o)); f == p.R.DBActive && !isFresh(x, base) {
+						isActive = true
+					}
+				}
+				if isActive {
+					key := "active-file-call:" + callee.Name() + ":" + here + "<-" + entry
+					if s.holdsAny(l.dbMu) {
+						l.ok("LK10|" + key)
+					} else {
+						x.Report("LK10", key, "method "+callee.Name()+" called on the ACTIVE data file without the database lock: appends mutate its size fields (and, under mmap, remap the region) concurrently - torn sizes, spurious EOF/CRC errors, faults", in)
+					}
 				}
 			}
 			// WRITE on the shared active file: a DataFile method that reaches ReadWriter.Write, receiver loaded
